@@ -654,9 +654,10 @@ def _project(a, b, P):
 @st.composite
 def s_query_other(draw):
     la, lb = draw(st.sampled_from(LABEL_PAIRS))
-    rec = draw(placed_boxes(la, lb))
+    # rasters from a few metres (decimetre pixels: coordinates ~1e7 times the pixel size) to 250 km across
+    rec = draw(placed_boxes(la, lb, extents=(3.0, 30.0, 2e3, 2e4, 1e5, 2.5e5)))
     ye, xe = layout_edges(rec["shape"], rec["tiles"])
-    # rasters are <= 250 km across; keep the whole query within ~2 raster sizes of it (inside the valid areas)
+    # keep the whole query within ~2 raster sizes of it (inside the valid areas)
     q = draw(pix_queries(rec["shape"], ye, xe, far=(1,), maxlen=1.0))
     mode = draw(st.sampled_from(["geom", "geom", "bbox"]))
     return {"rec": rec, "q": q, "qcrs": draw(spelled(lb)), "mode": mode}
